@@ -1,7 +1,8 @@
 // Correspondence harness for property C05 (internal/generate/compile.go).
 //
 // usage: verif_compile <seed> <class-files> <wild-files>
-//        verif_compile text <file.dbc>...          (replay: compile the given files)
+//
+//	verif_compile text <file.dbc>...          (replay: compile the given files)
 //
 // Generates DBC files of the compile class (DESIGN.md 4.2) from a seeded PRNG, renders each in
 // the original order and in permuted orders (messages among themselves, signals inside a
@@ -9,16 +10,16 @@
 // ones above, plus 8 combined shuffles), calls the tree's generate.Compile on every text and
 // prints, per text, one block:
 //
-//   CASE <file> <variant> <class|wild> <what was permuted>
-//   TEXT s:<hex of the DBC text>
-//   DEF ... / SIG ...          the parser's definitions (harness/dbccommon/dump.go)
-//   DB s:<source> s:<version> <#nodes> <#messages>
-//   NODE s:<name> s:<description>
-//   MSG s:<name> <id> <ext> <len> <sendtype> s:<description> s:<sender> <cycle ns> <delay ns> <#signals>
-//   SGN s:<name> <start> <len> <be> <signed> <float> <mux> <muxed> <muxvalue> <offset> <scale> <min> <max>
-//       s:<unit> s:<description> <default> <#recv> s:<recv>... <#vd> {<value> s:<text>}...
-//   WARN <kind> <line>:<col>:<off>
-//   END
+//	CASE <file> <variant> <class|wild> <what was permuted>
+//	TEXT s:<hex of the DBC text>
+//	DEF ... / SIG ...          the parser's definitions (harness/dbccommon/dump.go)
+//	DB s:<source> s:<version> <#nodes> <#messages>
+//	NODE s:<name> s:<description>
+//	MSG s:<name> <id> <ext> <len> <sendtype> s:<description> s:<sender> <cycle ns> <delay ns> <#signals>
+//	SGN s:<name> <start> <len> <be> <signed> <float> <mux> <muxed> <muxvalue> <offset> <scale> <min> <max>
+//	    s:<unit> s:<description> <default> <#recv> s:<recv>... <#vd> {<value> s:<text>}...
+//	WARN <kind> <line>:<col>:<off>
+//	END
 //
 // numbers in hex (int64/int/durations as the hex of the uint64 reinterpretation), floats as bit
 // patterns. "wild" files leave the class on purpose (duplicates, truncating sizes, non-integral
